@@ -229,68 +229,83 @@ def oracle(ctx, protos, asts, models, per):
             hits[name] = True
             ctx.report(name, 'declared carrier differs from the specification', dict(declared=p['frequency']),
                        dict(protocol=name, declared=p['frequency'], specification=float(freq), irp=p['cls'].irp))
-        bad = None
-        skipped = None
-        for asg in gen_inputs.param_assignments(p, rng, per):
-            for n in (0, 1, 2):
-                c, e = engine.fresh_encode(p, asg, repeat_count=n)
-                if c is None:
-                    skipped = 'encode raises'
-                    break
-                lib = merge([x for f in c.normalized_rlc for x in f])
-                env, missing = {}, []
-                for v in params:
-                    if v in inv:
-                        env[v] = asg[inv[v]]
-                        continue
-                    val = None
-                    try:
-                        val = int(c._data[v])
-                    except Exception:  # noqa
-                        pass
-                    if val is None:
-                        missing.append(v)
+        # two passes: every request on a fresh process state, and AGAIN right after an earlier encode(repeat_count=1) of the same key
+        # (another fresh instance, class-level tables not restored in between)
+        first_cls = None
+        for again in ((False, True) if 'repeat_count' in p['enc_args'] else (False,)):
+            bad = None
+            skipped = None
+            for asg in gen_inputs.param_assignments(p, rng, per):
+                for n in ((0, 1) if again else (0, 1, 2)):
+                    if again:
+                        c, e = engine.second_encode(p, asg, dict(repeat_count=1), repeat_count=n)
                     else:
-                        env[v] = val
-                if missing:
-                    skipped = 'IRP variable without a counterpart: ' + ','.join(sorted(missing))
-                    break
-                ctx.count_eval(key=(name, tuple(sorted(asg.items())), n))
-                why = None
-                ok = False
-                for k in [n + 1, n, n + 2] + list(range(0, 2 * n + 5)):
-                    try:
-                        sig = irp.render(ast, env, k)
-                    except irp.IrpError as ex:
-                        why = why or 'specification undefined: %s' % ex
-                        continue
-                    if len(sig) == len(lib) and all(abs(d - q) < cnt + 1 for d, (q, cnt) in zip(lib, sig)):
-                        ok = True
+                        c, e = engine.fresh_encode(p, asg, repeat_count=n)
+                    if c is None:
+                        skipped = 'encode raises'
                         break
-                    if why is None or why.startswith('spec'):
-                        if len(sig) != len(lib):
-                            why = 'number of durations %d, specification %d' % (len(lib), len(sig))
+                    lib = merge([x for f in c.normalized_rlc for x in f])
+                    env, missing = {}, []
+                    for v in params:
+                        if v in inv:
+                            env[v] = asg[inv[v]]
+                            continue
+                        val = None
+                        try:
+                            val = int(c._data[v])
+                        except Exception:  # noqa
+                            pass
+                        if val is None:
+                            missing.append(v)
                         else:
-                            i = [j for j, (d, (q, cnt)) in enumerate(zip(lib, sig)) if abs(d - q) >= cnt + 1][0]
-                            why = 'duration %d is %d, specification %.1f' % (i, lib[i], float(sig[i][0]))
-                if not ok:
-                    bad = (asg, n, why, lib)
+                            env[v] = val
+                    if missing:
+                        skipped = 'IRP variable without a counterpart: ' + ','.join(sorted(missing))
+                        break
+                    ctx.count_eval(key=(name, tuple(sorted(asg.items())), n, again))
+                    why = None
+                    ok = False
+                    for k in [n + 1, n, n + 2] + list(range(0, 2 * n + 5)):
+                        try:
+                            sig = irp.render(ast, env, k)
+                        except irp.IrpError as ex:
+                            why = why or 'specification undefined: %s' % ex
+                            continue
+                        if len(sig) == len(lib) and all(abs(d - q) < cnt + 1 for d, (q, cnt) in zip(lib, sig)):
+                            ok = True
+                            break
+                        if why is None or why.startswith('spec'):
+                            if len(sig) != len(lib):
+                                why = 'number of durations %d, specification %d' % (len(lib), len(sig))
+                                cls = 'n%d:%s' % (n, 'shorter' if len(lib) < len(sig) else 'longer')
+                            else:
+                                i = [j for j, (d, (q, cnt)) in enumerate(zip(lib, sig)) if abs(d - q) >= cnt + 1][0]
+                                why = 'duration %d is %d, specification %.1f' % (i, lib[i], float(sig[i][0]))
+                                cls = 'n%d:dur@%s' % (n, 'first' if i == 0 else ('last' if i == len(lib) - 1 else 'inner'))
+                    if not ok:
+                        bad = (asg, n, why, lib, ('again:' if again else '') + (cls if why and not why.startswith('spec') else 'n%d:undefined' % n))
+                        break
+                if bad or skipped:
                     break
-            if bad or skipped:
-                break
-        if bad:
-            hits[name] = True
-            asg, n, why, lib = bad
-            kind = 'emitted signal differs from the specification: ' + ('length' if why.startswith('number') else
-                                                                             ('undefined' if why.startswith('spec') else 'duration'))
-            info = dict(asg)
-            info['n'] = n
-            ctx.report(name, kind, info, dict(protocol=name, params=asg, repeat_count=n, difference=why, emitted=lib[:80],
-                                               irp=p['cls'].irp))
-        elif skipped:
-            ctx.extra.setdefault('oracle_skipped', {})[name] = skipped
-        else:
-            ctx.passed(name, dict(n=2))
+            if bad and again and first_cls is not None and bad[4] == 'again:' + first_cls:
+                bad = None          # the deviation of the first pass again: one defect, reported once
+                skipped = None
+            if bad and not again:
+                first_cls = bad[4]
+            if bad:
+                hits[name] = True
+                asg, n, why, lib, cls = bad
+                kind = 'emitted signal differs from the specification: ' + ('length' if why.startswith('number') else
+                                                                                 ('undefined' if why.startswith('spec') else 'duration'))
+                info = dict(asg)
+                info['n'] = n
+                info['sig'] = cls          # which repeat count first deviates and how (shorter / longer / which duration)
+                ctx.report(name, kind, info, dict(protocol=name, params=asg, repeat_count=n, difference=why, emitted=lib[:80],
+                                                   irp=p['cls'].irp))
+            elif skipped:
+                ctx.extra.setdefault('oracle_skipped', {})[name] = skipped
+            else:
+                ctx.passed(name, dict(n=2))
     return hits
 
 
